@@ -43,12 +43,20 @@ func (r c07Rev) clone() c07Rev {
 	return r
 }
 
+// c07UC: the unlock conditions of a contract between the two keys - the renter's key first,
+// both signatures required - written out here instead of calling the package-private
+// contractUnlockConditions: an oracle that does not depend on the code under test, and that
+// survives a refactoring which inlines or renames that helper.
+func c07UC(hostKey, renterKey types.UnlockKey) types.UnlockConditions {
+	return types.UnlockConditions{PublicKeys: []types.UnlockKey{renterKey, hostKey}, SignaturesRequired: 2}
+}
+
 var c07UCs = func() []types.UnlockConditions {
 	var out []types.UnlockConditions
 	for i := 0; i < 4; i++ {
 		k1 := types.NewPrivateKeyFromSeed(make([]byte, 32)).PublicKey()
 		k2 := types.PublicKey{byte(i + 1)}
-		out = append(out, contractUnlockConditions(k1.UnlockKey(), k2.UnlockKey()))
+		out = append(out, c07UC(k1.UnlockKey(), k2.UnlockKey()))
 	}
 	return out
 }()
@@ -1158,7 +1166,7 @@ func TestVerifC07(t *testing.T) {
 			for i := 0; i < rng.Intn(2); i++ {
 				txn.FileContracts = append(txn.FileContracts, prop.FileContract)
 			}
-			exp := contractUnlockConditions(hostKey, renterKey)
+			exp := c07UC(hostKey, renterKey)
 			other := ids.otherID(txn.FileContractID(0), cur.Payout, exp)
 			_ = other
 			fcRev := types.FileContractRevision{FileContract: cur.FileContract}
